@@ -1284,6 +1284,24 @@ func mutate(e emitter, reg *s.Reg, rootNode *s.Node, base *s.V, prefix s.Path, l
 			for _, w := range wrongTyped(n) {
 				e.emit("typ", st.Path, none, base.ReplaceAt(st.Path, w))
 			}
+			// a placeholder as the whole value of a position that is not a scalar (struct, list, map, component): the
+			// variable is set, the position cannot take a text
+			switch n.Kind {
+			case "struct", "slice", "map", "plugin":
+				e.emit("pht", st.Path, caseEnv{env: map[string]string{envVar: "a16text"}}, base.ReplaceAt(st.Path, s.Str("${env:"+envVar+"}")))
+			}
+		}
+		// the `type` key of a component: not a string, absent, written twice, naming no component
+		if st.IsMapNode && st.Node.Kind == "plugin" && node != nil && node.K == 'm' {
+			if t := node.Get("type"); t != nil && t.K == 's' {
+				for _, w := range []*s.V{s.Int(1), s.List(t), s.Null(), s.Bool(true), s.Str("a16-no-such-component"), s.Str("")} {
+					e.emit("ptype", st.Path, none, base.ReplaceAt(st.Path.With(s.Step{Key: "type"}), w))
+				}
+				e.emit("ptype", st.Path, none, base.RemoveKey(st.Path, "type"))
+				if e.head[0] != "cli" && node.Get("TYPE") == nil {
+					e.emit("ptype", st.Path, none, base.InsertKey(st.Path, "TYPE", t))
+				}
+			}
 		}
 		if n.Kind == "scalar" {
 			for _, w := range outOfRange(n, st.Validate) {
@@ -1416,6 +1434,17 @@ func mutate(e emitter, reg *s.Reg, rootNode *s.Node, base *s.V, prefix s.Path, l
 				if n.Scalar == "string" && node.K == 's' && len(node.S) >= 2 {
 					// embedded in literal text
 					e.emit("phe", st.Path, caseEnv{env: map[string]string{m: node.S[1:]}}, base.ReplaceAt(st.Path, s.Str(node.S[:1]+"${env:"+envUnset+"}")))
+				}
+			}
+			// the property file does not exist; the placeholder names a file but no property
+			e.emit("phe", st.Path, none, base.ReplaceAt(st.Path, s.Str("${property:"+propDir+"/absent.properties#"+propKey+"}")))
+			e.emit("phe", st.Path, caseEnv{props: map[string]string{propFile + "#" + propKey: "1"}}, base.ReplaceAt(st.Path, s.Str("${property:"+propFile+"}")))
+			// a tag type nobody registered is not a placeholder: the text stays as written (a variable of that name is set)
+			if n.Scalar == "string" && node.K == 's' {
+				for _, text := range []string{"${a16unreg:A16_NAME}", node.S + "${a16unreg:A16_NAME}"} {
+					if literalConstructs(e, base.ReplaceAt(st.Path, s.Str(text))) {
+						e.emit("ph:"+s.Str(text).Token(), st.Path, caseEnv{env: map[string]string{"A16_NAME": "resolved"}}, base.ReplaceAt(st.Path, s.Str(text)))
+					}
 				}
 			}
 			e.emit("phe", st.Path, caseEnv{props: map[string]string{propFile + "#other": "1"}}, base.ReplaceAt(st.Path, s.Str("${property:"+propFile+"#"+propKey+"}")))
